@@ -49,6 +49,19 @@ ex.extra_models.update({'next_lock_handle': ov_next_handle, 'distributed_tx::nex
                         'now_epoch_millis': ov_now, 'distributed_tx::now_epoch_millis': ov_now})
 
 
+def static_atomic(root, sym):
+    # the process-wide counters: created on first use with a symbolic value unless a scenario set them (K13)
+    def h(st):
+        if root not in st.roots:
+            st.roots[root] = Struct('AtomicU64', {'data': Cell(val=Int(z3.BitVec(sym, 64), False))})
+        return ref(st.roots[root])
+    return h
+
+
+ex.extra_models['static LOCK_COUNTER'] = static_atomic('LOCK_COUNTER', 'lock_counter')
+ex.extra_models['static LOCK_HIGH_WATER_WARNINGS'] = static_atomic('LOCK_WARN', 'warnings')
+
+
 class Table:
     def __init__(self, st, nl, tvecs):
         """nl lock entries; tvecs = list of vec lengths, one per transaction in the reverse index"""
@@ -347,6 +360,77 @@ for nl, tv in K11_SHAPES:
             cs.append(invariant(L, Tm))
             ck.require(ex, 'K12_serialize_restore_identity', r2.pc, None, z3.And(cs), wit, lambda m, w: 'serialize-restore')
 
+# ---------------- K13: handles stay unique (the assumption behind K2/K3/K11), also across a restart
+# next_lock_handle is executed from its MIR against the process-wide counter LOCK_COUNTER (a static; its initial value is read
+# from the static's initialiser in the dump).  J: every handle in the table is below the counter.
+ck.declare('K13_issued_handle_is_fresh', 'next_lock_handle with the counter at any value < 2^62', 'returns the counter value and advances the counter by one: under J (every handle in the table is below the counter) the new handle differs from every handle in the table, and J holds again')
+ck.declare('K13_restored_table_keeps_handles_unique', 'a table serialised by one process and restored by from_serializable in a freshly started process (LOCK_COUNTER at its initial value), then try_lock of a new transaction on a free key',
+           'the handle issued to the new transaction differs from the handle of every restored lock (otherwise release_by_handle of one transaction releases the other\'s locks)')
+_ov = {k: ex.extra_models.pop(k) for k in ('next_lock_handle', 'distributed_tx::next_lock_handle')}
+
+
+def counter_roots(st, value):
+    st.roots['LOCK_COUNTER'] = Struct('AtomicU64', {'data': Cell(val=Int(value, False))})
+    st.roots['LOCK_WARN'] = Struct('AtomicU64', {'data': Cell(val=Int(z3.BitVec('warnings', 64), False))})
+
+
+try:
+    st = ex.new_state()
+    c0 = z3.BitVec('counter0', 64)
+    st.assume(z3.ULT(c0, U64(1 << 62)))
+    counter_roots(st, c0)
+    res = run(st, 'next_lock_handle', [])
+    ck.note_path_problem(res, 'next_lock_handle')
+    n13 = 0
+    for r in res:
+        if r.status == 'panic':
+            ck.require(ex, 'K13_issued_handle_is_fresh', r.pc, None, z3.BoolVal(False), lambda m: {'op': 'next_lock_handle', 'counter': mval(m, c0)}, lambda m, w: 'handle-panic')
+            continue
+        if r.status != 'return':
+            continue
+        n13 += 1
+        c1 = r.st.roots['LOCK_COUNTER'].fields['data'].load(0, None, r.st).v
+        ck.require(ex, 'K13_issued_handle_is_fresh', r.pc, None, z3.And(r.retval.v == c0, c1 == c0 + 1), lambda m: {'op': 'next_lock_handle', 'counter': mval(m, c0)}, lambda m, w: 'handle-not-counter')
+    if n13 == 0:
+        ck.inconclusive.append('K13: next_lock_handle never returned')
+    INIT = P.static_init.get('LOCK_COUNTER')
+    if INIT is None:
+        ck.inconclusive.append('K13: initial value of LOCK_COUNTER not found in the dump')
+    else:
+        for nl, tv in [(1, [1]), (2, [1, 1])]:
+            st = ex.new_state()
+            tb = Table(st, nl, tv)
+            counter_roots(st, z3.BitVec('old_counter', 64))
+            for h in tb.h:      # J in the process that issued them; handles start at the initial counter value
+                st.assume(z3.And(z3.ULT(h, z3.BitVec('old_counter', 64)), z3.UGE(h, U64(INIT))))
+            for r in run(st, 'LockManager::to_serializable', [ref(st.roots['lm'])]):
+                if r.status != 'return':
+                    ck.note_path_problem([r], 'K13 to_serializable')
+                    continue
+                counter_roots(r.st, U64(INIT))          # restart: statics are re-initialised
+                for r2 in run(r.st, 'LockManager::from_serializable', [r.retval]):
+                    if r2.status != 'return':
+                        ck.note_path_problem([r2], 'K13 from_serializable')
+                        continue
+                    r2.st.roots['lm'] = r2.retval
+                    tx = Int(z3.BitVec('req_tx', 64), False)
+                    rk = Str(z3.BitVec('rk0', 64))
+                    r2.st.assume(z3.And([tx.v != t for t in tb.tx] + [rk.id != k.id for k in tb.keys]))
+                    res3 = run(r2.st, 'LockManager::try_lock', [ref(r2.st.roots['lm']), tx, ref(Seq('std::string::String', [rk]))])
+                    ck.note_path_problem(res3, 'K13 try_lock after restore')
+                    for r3 in res3:
+                        if r3.status != 'return' or r3.retval.variant != 'Ok':
+                            continue
+                        L, Tm = post_tables(r3.st)
+                        nh = r3.retval.fields[('Ok', 0)].v
+                        # restored locks still in the table keep a handle different from the new one
+                        cs = [z3.Implies(k != rk.id, h != nh) for (k, t, h, a, o) in L]
+                        wit = lambda m, tb=tb, r3=r3: {'op': 'restore_then_lock', 'table': tb.dump(m), 'clock': [mval(m, c_) for c_ in r3.st.env.get('clock_readings', [])]}
+                        ck.require(ex, 'K13_restored_table_keeps_handles_unique', r3.pc, None, z3.And(cs) if cs else z3.BoolVal(True), wit, lambda m, w: 'handle-reused-after-restart',
+                                   prefer=z3.And([h == U64(INIT + i) for i, h in enumerate(tb.h)]))
+finally:
+    ex.extra_models.update(_ov)
+
 for nl, tv in K11_SHAPES:
     # ---------------- the wait-graph flavours: whoever loses its locks here also leaves the wait-for graph
     for call in ('release_by_handle_with_wait_cleanup', 'cleanup_expired_with_wait_cleanup'):
@@ -459,7 +543,14 @@ def _concrete_violation(w, rep):
 
 for v in ck.violations:
     w = v['witness']
-    if 'table' in w:
+    if w.get('op') == 'restore_then_lock':
+        # two child processes of the driver: the first takes the locks and serialises, the second (fresh counter) restores and locks
+        rep = Replay.call({'op': 'lock_handle_restart', 'locks': len(w['table']['locks'])})
+        v['native'] = rep
+        v['replayed'] = rep.get('violates')
+    elif w.get('op') == 'next_lock_handle':
+        v['native'], v['replayed'] = None, None
+    elif 'table' in w:
         for l in w['table']['locks']:
             l['expired'] = _expired(l, w.get('clock'))
         rep = Replay.call({**w, 'op': 'lock_manager_step', 'lockop': w['op']})
